@@ -117,7 +117,7 @@ def run(c, chk):
         def __init__(self, chk):
             self.chk = chk
     sub = P(chk, {'R17.6': 'R13.4'})
-    resolution_idiom(c, sub, ex)
+    c17.resolution_idiom(c, sub, ex)
 
     # R13.5
     term = False
@@ -158,28 +158,3 @@ def run(c, chk):
     chk.floor('R13.7 start conditions with a popping EOF action', npop, 1)
 
 
-def resolution_idiom(c, chk, ex):
-    def idiom(f, namearg):
-        out = set()
-        for p in ex.explore(f):
-            if p.end != 'ret':
-                continue
-            haspath = None
-            for cn, t, _ in p.assume:
-                if pm.describe_cond(cn) == 'cfg->path':
-                    haspath = t
-            calls = [e for e in p.events if e.kind == 'call' and e.name in ('cfg_searchpath', 'cfg_tilde_expand')]
-            if haspath is None or not calls:
-                continue
-            e = calls[0]
-            arg = e.args[1] if e.name == 'cfg_searchpath' else e.args[0]
-            first = sym.render(e.args[0]) if e.name == 'cfg_searchpath' else ''
-            out.add((haspath, e.name, first, arg == ('p', namearg)))
-        return out
-    a = idiom(c.need('cfg_parse'), 'filename')
-    b = idiom(c.need('cfg_lexer_include'), 'filename')
-    want = {(True, 'cfg_searchpath', 'cfg->path', True), (False, 'cfg_tilde_expand', '', True)}
-    if a == want and b == want:
-        chk.ok('R17.6', 'cfg_parse / cfg_lexer_include', 'both: cfg->path ? cfg_searchpath(cfg->path, name) : cfg_tilde_expand(name)', sample=True)
-    else:
-        chk.fail('R17.6', 'resolution-idiom', c.where(c.need('cfg_parse')), 'parse and include resolve file names differently: parse %s, include %s' % (sorted(a), sorted(b)))
